@@ -90,6 +90,13 @@ def check_clock(y, T_exp, rate_exp, L_exp, k_ops, offset_s, n_steps, what):
 @st.composite
 def slice_case(draw):
     spec = draw(G.signal_spec(nmax=300))
+    if draw(st.integers(0, 19)) == 0:
+        # long signals now and then (a few 10^4..10^5 samples, one channel)
+        spec["n"] = draw(st.sampled_from([4096, 65536, 65537, 100003, 200000]))
+        fixed = {"FullStokesSignal": [4], "DualPolarizationSignal": [2]}.get(spec["cls"], [])
+        spec["sshape"] = ([] if spec["cls"] == "Signal" else [min(spec["sshape"][0], 2)]) + fixed
+        if spec["dtype"] in ("f4", "c8"):
+            spec["dtype"] = "f8" if spec["dtype"] == "f4" else "c16"
     n = spec["n"]
     sl = draw(G.slices(n))
     case = {"sig": spec, "t": sl}
